@@ -5,6 +5,7 @@
 #include <cstdlib>
 #include <cstring>
 #include <string>
+#include <vector>
 #define protected public
 #define private public
 #include "mp/solver.h"
@@ -29,8 +30,35 @@ struct TS : mp::SolverImpl<mp::Problem> {
   void ReadNL(fmt::StringRef) {}
   void HandleUnknownOption(const char *) override { }
 };
+static int parse_one(const char *arg, bool verbose) {
+  size_t n = strlen(arg);
+  char *text = (char *)malloc(n + 1);
+  memcpy(text, arg, n + 1);
+  TS s; int rc = 0;
+  try { s.ParseOptionString(text, mp::BasicSolver::NO_OPTION_ECHO); }
+  catch (const mp::Error &e) { if (verbose) printf("option error: %s\n", e.what()); }
+  catch (const std::exception &e) { printf("VIOLATED: option text [%s]: parsing ended with %s\n", arg, e.what()); rc = 10; }
+  if (verbose) printf("ok: iopt=%d dopt=%g sopt=[%s]\n", s.i_, s.d_, s.s_.c_str());
+  free(text);
+  return rc;
+}
+// sweep: every value text over {", ', a, space} up to length 4 for the string option, with and without '='
+static int sweep() {
+  const char alpha[] = {'"', '\'', 'a', ' '};
+  std::vector<std::string> cur(1, ""); int n = 0;
+  for (int len = 0; len <= 4; ++len) {
+    for (const std::string &v : cur)
+      for (const char *pre : {"sopt=", "sopt ", "iopt=1 sopt=", "sopt= "}) { ++n; if (parse_one((std::string(pre) + v).c_str(), false)) return 10; }
+    std::vector<std::string> next; for (const std::string &v : cur) for (char c : alpha) next.push_back(v + c); cur.swap(next);
+  }
+  printf("ok: %d option texts parsed without memory error or stray exception\n", n); return 0;
+}
 int main(int argc, char **argv) {
   if (argc < 2) return 2;
+  if (!strcmp(argv[1], "--sweep")) return sweep();
+  return parse_one(argv[1], true);
+}
+int old_main(int argc, char **argv) {
   size_t n = strlen(argv[1]);
   char *text = (char *)malloc(n + 1);
   memcpy(text, argv[1], n + 1);
